@@ -277,10 +277,13 @@ fn pair_case(k: usize) -> Option<(Model, Vec<(Role, String)>)> {
     // with only `_` fields, tuple fieldset with only `_` fields (the last three are all *emitted* as
     // unit-like or tuple structs), named fieldset with a used field (a braced struct: control)
     let target_shape = (k / 3) % 5;
-    if k / 15 > 0 {
+    // the other used fields of the same fieldset: none, one with letters after `f`, one with letters
+    // first (shifting `f`'s index), a second letter-less one after `f`
+    let companion = (k / 15) % 4;
+    if k / 60 > 0 {
         return None;
     }
-    let target = format!("{f}_{i}");
+    let target = format!("{f}_{}", if companion == 2 { i + 1 } else { i });
     if !legal_upper(&target) {
         // e.g. `a_0` is not a legal nonterminal name: nothing to test
         return None;
@@ -289,6 +292,12 @@ fn pair_case(k: usize) -> Option<(Model, Vec<(Role, String)>)> {
     let t = |used: bool| Field { sym: Sym::T(0), used, name: "x".into() };
     let mut a_fields: Vec<Field> = (0..i).map(|_| t(false)).collect();
     a_fields.push(Field { sym: Sym::N(2), used: true, name: f.to_string() });
+    match companion {
+        1 => a_fields.push(Field { sym: Sym::T(0), used: true, name: "key".into() }),
+        2 => a_fields.insert(0, Field { sym: Sym::T(0), used: true, name: "key".into() }),
+        3 => a_fields.push(Field { sym: Sym::T(0), used: true, name: if f == "_9" { "_8".into() } else { "_9".into() } }),
+        _ => {}
+    }
     let nts = vec![
         Nt { name: "A".into(), is_enum: false, prods: vec![Prod { name: String::new(), style: Style::Named, fields: a_fields }], attrs: vec![] },
         Nt {
@@ -310,7 +319,7 @@ fn pair_case(k: usize) -> Option<(Model, Vec<(Role, String)>)> {
 }
 
 pub fn n_systematic() -> usize {
-    systematic_singles().len() + PAIR_FIELDS.len() * 15
+    systematic_singles().len() + PAIR_FIELDS.len() * 60
 }
 
 pub fn c05_case(seed: u64, idx: u64) -> Option<(Model, String, String, Vec<(Role, String)>, bool)> {
@@ -628,7 +637,7 @@ impl Engine for Compile {
     fn rule(&self, prop: &str) -> String {
         match prop {
             "C05" => "inputs: accepted grammars (combinator-built and random, <=6 nonterminals) whose nonterminals, variants, terminals, terminal enum and named fields are renamed from adversarial pools: every helper name the emitter uses or might use (State Node Action RuleKind Eof Quasiterminal QuasiterminalKind NonterminalKind ACTION_TABLE GOTO_TABLE S Terminal Shift Reduce Accept R0 S0 Error Item Output ...), their uniquified forms (State2, Eof2 ...), letter-less names (__ _0 ___0), a 100-character name; field names from the emitter's own locals, parameters and functions (states nodes node t0 src top_state new_state rule_kind ...). First every single pool name alone in every role (systematic), then random mixes at densities 0.15-0.9. Excluded by the precondition: Rust keywords, Kiki's reserved words, 2021 prelude items, duplicate fields in one fieldset. Payload types are `pub struct P;` with no derive at all (also inside Vec<..>, and unit). One evaluation = one emitted module compiled with rustc --emit=metadata (warnings allowed, deny-by-default lints are errors). Distinct non-trivial = distinct sources containing at least one pool name.".into(),
-            _ => "inputs: accepted grammars with all fieldset patterns (named / tuple / empty, every used/skipped mask for <=3 fields systematically, random beyond), structs and enums, variant-less enums, 0..n terminals with payload types from a pool of 7 real types. One evaluation = one emitted module checked twice: (text) the emitted `pub enum`/`pub struct` items read token-wise must equal the expected shape (names, variants and used fields in order, Box<N> / payload type, pub on struct fields, unit-like when nothing is used) and `parse` must have the signature pub fn parse<X>(_: X) -> Result<Start, Option<Terminal>> where X: IntoIterator<Item = Terminal>; (types) a generated client outside the module constructs every type, destructures it without `..`, matches every enum without wildcard, ascribes each field its expected type, reads struct fields, builds each terminal from a value of the declared type and coerces parse to fn(Vec<T>), fn(Empty<T>) and fn(VecDeque<T>) -> Result<Start, Option<T>>, and must type-check. Distinct non-trivial = distinct declaration shapes (kind, style, mask, symbol kinds).".into(),
+            _ => "inputs: accepted grammars with all fieldset patterns (named / tuple / empty, every used/skipped mask for <=3 fields systematically, random beyond), structs and enums, variant-less enums, 0..n terminals with payload types from a pool of 9 real types (up to four generic levels). One evaluation = one emitted module checked twice: (text) the emitted `pub enum`/`pub struct` items read token-wise must equal the expected shape (names, variants and used fields in order, Box<N> / payload type, pub on struct fields, unit-like when nothing is used) and `parse` must have the signature pub fn parse<X>(_: X) -> Result<Start, Option<Terminal>> where X: IntoIterator<Item = Terminal>; (types) a generated client outside the module constructs every type, destructures it without `..`, matches every enum without wildcard, ascribes each field its expected type, reads struct fields, builds each terminal from a value of the declared type and coerces parse to fn(Vec<T>), fn(Empty<T>) and fn(VecDeque<T>) -> Result<Start, Option<T>>, and must type-check. Distinct non-trivial = distinct declaration shapes (kind, style, mask, symbol kinds).".into(),
         }
     }
     fn floors(&self, prop: &str, _tier: Tier, agg: &Agg) -> Vec<String> {
